@@ -104,5 +104,20 @@ Definition src2_subject_repeat_check (v_self : pyval) (v_subject : pyval) : pyva
    | BErr => PErr
    end).
 
+(* saml2/response.py:StatusResponse.status_ok (the statements in front of the table lookup, cut out by harness/c06.py:status_slice), lines 379-388 *)
+Definition src2_status_ok_head (v_self : pyval) : pyval :=
+  let v_status := PErr in
+  let v_err_code := PErr in
+  let v_err_msg := PErr in
+  (py_bind (p2_attr (p2_attr v_self "response") "status") (fun v_status =>
+   (match p2_branch (p2_or (p2_not v_status) (p2_eq (p2_attr (p2_attr v_status "status_code") "value") (PStr "urn:oasis:names:tc:SAML:2.0:status:Success"))) with
+   | BTrue => (PBool true)
+   | BFalse => (py_bind (p2_ifexp (p2_attr (p2_attr v_status "status_code") "status_code") (p2_attr (p2_attr (p2_attr v_status "status_code") "status_code") "value") PNone) (fun v_err_code =>
+   (py_bind (p2_ifexp (p2_attr v_status "status_message") (p2_attr (p2_attr v_status "status_message") "text") (p2_or v_err_code (PStr "Unknown error"))) (fun v_err_msg =>
+   v_err_code))))
+   | BExc n_2 => (PExc n_2)
+   | BErr => PErr
+   end))).
+
 (* saml2/client_base.py:Base.__init__, attribute_defaults["allow_unsolicited"] *)
 Definition src2_allow_unsolicited_default : pyval := (PBool false).
